@@ -132,6 +132,22 @@ theorem indexOf_spec {cmp : K → K → Ordering} (so : StrictOrder cmp) (l : Li
     (hs : Sorted cmp l) : ∃ r, Map.indexOf cmp l key = some r ∧ IndexSpec cmp l key r :=
   AslProofs.Map.indexOf_spec so l key hs
 
+/-- the insertion point is unique: two positions that both separate `< key` from `> key` coincide -/
+theorem insertion_point_unique {cmp : K → K → Ordering} (l : List (K × V)) (key : K) (p q : Nat)
+    (hp : p ≤ l.length) (hq : q ≤ l.length)
+    (hp1 : ∀ i (h : i < l.length), i < p → cmp l[i].1 key = .lt) (hp2 : ∀ i (h : i < l.length), p ≤ i → cmp l[i].1 key = .gt)
+    (hq1 : ∀ i (h : i < l.length), i < q → cmp l[i].1 key = .lt) (hq2 : ∀ i (h : i < l.length), q ≤ i → cmp l[i].1 key = .gt) :
+    p = q := by
+  apply Classical.byContradiction
+  intro hne
+  rcases Nat.lt_or_gt_of_ne hne with h | h
+  · have a := hp2 p (by omega) (Nat.le_refl _)
+    have b := hq1 p (by omega) h
+    rw [a] at b; cases b
+  · have a := hq2 q (by omega) (Nat.le_refl _)
+    have b := hp1 q (by omega) h
+    rw [a] at b; cases b
+
 variable [DecidableEq K]
 
 /-- the encoded result decides presence -/
@@ -284,6 +300,14 @@ theorem hashmap_lookups {h : K → Nat} {m : HashMap.HM K V} (inv : Inv h m) (ke
   refine ⟨AslProofs.HashMap.find_eq_abs inv.wf key, AslProofs.HashMap.has_eq_abs inv.wf key, ?_⟩
   unfold HashMap.get; rw [AslProofs.HashMap.find_eq_abs inv.wf key]
 
+/-- the value `operator[]` refers to is the stored one, or the default it has just created -/
+theorem hashmap_index_value {h : K → Nat} {m : HashMap.HM K V} (inv : Inv h m) (key : K) (dflt : V) :
+    HashMap.get h (HashMap.index h dflt m key) key dflt = (abs m key).getD dflt := by
+  obtain ⟨i, a⟩ := AslProofs.HashMap.index_spec inv dflt key
+  unfold HashMap.get
+  rw [AslProofs.HashMap.find_eq_abs i.wf key, a key]
+  simp
+
 /-- **growth is invisible**: `rehash()` keeps the invariant and the abstract map, whatever the fill -/
 theorem rehash_preserves_abs {h : K → Nat} {m : HashMap.HM K V} (inv : Inv h m) :
     Inv h (HashMap.rehash h m) ∧ ∀ k, abs (HashMap.rehash h m) k = abs m k :=
@@ -356,6 +380,26 @@ theorem hashmap_refines_finmap (h : K → Nat) (dflt : V) (ops : List (HOp K V))
 theorem hashmap_eq_iff [DecidableEq V] {h : K → Nat} {a b : HashMap.HM K V} (ia : Inv h a) (ib : Inv h b) :
     HashMap.eq h a b = true ↔ ∀ k, abs a k = abs b k :=
   AslProofs.HashMap.eq_iff ia ib
+
+/-- **insertion order, colliding keys and growth never matter**: two tables of any initial sizes driven by any
+two histories compare equal exactly when the two histories produce the same finite map -/
+theorem hashmap_eq_of_histories [DecidableEq V] (h : K → Nat) (dflt : V) (ops1 ops2 : List (HOp K V))
+    {nb1 nb2 : Nat} (h1 : 0 < nb1) (h2 : 0 < nb2) :
+    HashMap.eq h (ops1.foldl (fun m o => o.run h dflt m) (HashMap.empty nb1))
+                 (ops2.foldl (fun m o => o.run h dflt m) (HashMap.empty nb2)) = true ↔
+    ∀ k, ops1.foldl (fun f o => o.spec dflt f) FinMap.empty k = ops2.foldl (fun f o => o.spec dflt f) FinMap.empty k := by
+  obtain ⟨e1, z1⟩ := hashmap_empty (V := V) h h1
+  obtain ⟨e2, z2⟩ := hashmap_empty (V := V) h h2
+  obtain ⟨i1, a1⟩ := hashmap_refines_finmap h dflt ops1 e1
+  obtain ⟨i2, a2⟩ := hashmap_refines_finmap h dflt ops2 e2
+  have ea : abs (HashMap.empty nb1 : HashMap.HM K V) = FinMap.empty := funext z1
+  have eb : abs (HashMap.empty nb2 : HashMap.HM K V) = FinMap.empty := funext z2
+  rw [ea] at a1
+  rw [eb] at a2
+  rw [hashmap_eq_iff i1 i2]
+  constructor
+  · intro e k; rw [← a1 k, e k, a2 k]
+  · intro e k; rw [a1 k, a2 k, e k]
 
 /-- equal contents ⇒ the two enumerations are permutations of each other (insertion order, bucket sharing
 and growth only permute the enumeration) -/
